@@ -1,7 +1,7 @@
 (* C17 Memory stream broker implements bounded-stream history semantics.
    Property theorems only; proofs live in Proofs/MemStream.v. *)
 From Coq Require Import List NArith ZArith Bool.
-From Cfg Require Import Model.MemStream Model.StreamSpec Proofs.MemStream Harness.C17.
+From Cfg Require Import Model.MemStream Model.StreamSpec Proofs.MemStream Proofs.MemStreamIdle Harness.C17.
 Import ListNotations.
 Open Scope N_scope.
 
@@ -10,10 +10,16 @@ Open Scope N_scope.
    remove, arbitrary clock moves and arbitrary placement of the three
    sweepers) the model of the memory broker returns exactly the outputs of
    the bounded append-only stream specification of Model/StreamSpec.v.
-   Domain (stated, not hidden): since offsets that cannot wrap uint64, i.e.
-   offset < 2^64-1 forward and offset >= 1 in reverse. *)
+   Domain (stated, not hidden): (a) since offsets that cannot wrap uint64, i.e.
+   offset < 2^64-1 forward and offset >= 1 in reverse; (b) [run_mono]: no
+   operation moves a channel's history or metadata deadline EARLIER than the
+   deadline it currently has - true whenever each channel is used with one
+   history TTL and one metadata TTL, since the clock is monotone.  Outside (b)
+   the code acts on the deadline only at the later instant queued before
+   (modelled: Example C17_shorter_ttl_quirk); the corollaries below do not
+   need (b). *)
 Theorem C17_refines : forall now meta ops,
-  ops_ok ops = true ->
+  run_mono (hub_init now meta) ops = true -> ops_ok ops = true ->
   snd (MemStream.run (hub_init now meta) ops) = snd (sp_run (spec_init now meta) ops).
 Proof. exact refines. Qed.
 Print Assumptions C17_refines.
@@ -60,7 +66,8 @@ Theorem C17_epoch_changes_only_on_discard : forall h o ch s,
   h_streams h ch = Some s ->
   match h_streams (fst (step h o)) ch with
   | Some s' => s_epoch s' = s_epoch s /\ s_top s <= s_top s'
-  | None => o = SweepRemove /\ due h (h_removes h ch) = true
+  | None => o = SweepRemove /\
+            exists d q, h_rem h ch = Some (d, q) /\ d <= now_s h /\ q <= now_s h
   end.
 Proof. exact epoch_stable. Qed.
 Print Assumptions C17_epoch_changes_only_on_discard.
@@ -105,6 +112,17 @@ Theorem C17_oracle_sound : forall c,
 Proof. exact oracle_sound. Qed.
 Print Assumptions C17_oracle_sound.
 
+(* Encoding lemma for the correspondence run: two consecutive idle sweeper
+   ticks equal one tick after the combined clock move (state and all later
+   outputs), so a long clock move may be recorded with its last tick only.
+   (Functional extensionality: the hub's maps are functions.) *)
+Theorem C17_idle_ticks_collapse : forall h d1 d2 r,
+  MemStream.run h (ticks [d1; d2] ++ r) =
+  (fst (MemStream.run h (ticks [d1 + d2] ++ r)),
+   OUnit :: OUnit :: OUnit :: OUnit :: snd (MemStream.run h (ticks [d1 + d2] ++ r))).
+Proof. exact idle_ticks_collapse. Qed.
+Print Assumptions C17_idle_ticks_collapse.
+
 (* ---- non-vacuity and the documented corner ---- *)
 Definition po (size : Z) (ttl meta : N) := mkPopts size ttl meta 0 0 0 0.
 
@@ -131,6 +149,31 @@ Example C17_run_example :
      OUnit; OUnit; OUnit;
      OPub 1 2 0 [mkDeliv 7 5 1 1 2]].
 Proof. vm_compute. reflexivity. Qed.
+
+Example C17_run_example_in_domain :
+  run_mono (hub_init 700 0)
+    [Publish 7 1 (po 2 2000 5000); Publish 7 2 (po 2 2000 5000); Publish 7 3 (po 2 2000 5000);
+     History 7 (mkFilter None (-1) false) 5000;
+     Advance 2000; SweepExpire; SweepRemove;
+     Publish 7 4 (po 2 2000 5000);
+     Advance 5000; SweepExpire; SweepRemove;
+     Publish 7 5 (po 2 2000 5000)] = true.
+Proof. vm_compute. reflexivity. Qed.
+
+(* outside (b): a 5 s TTL followed by a 1 s TTL.  The queue entry keeps
+   priority now+5, so the sweep at +1 s leaves the stream alone (the
+   specification would expire it) and only the sweep at +5 s clears it. *)
+Example C17_shorter_ttl_quirk :
+  let ops := [Publish 7 1 (po 2 5000 0); Publish 7 2 (po 2 1000 0);
+              Advance 1000; SweepExpire; History 7 (mkFilter None (-1) false) 0;
+              Advance 4000; SweepExpire; History 7 (mkFilter None (-1) false) 0] in
+  run_mono (hub_init 700 0) ops = false /\
+  snd (MemStream.run (hub_init 700 0) ops)
+  = [OPub 1 1 0 [mkDeliv 7 1 1 1 1]; OPub 2 1 0 [mkDeliv 7 2 2 2 1];
+     OUnit; OUnit; OHist [mkItem 1 1; mkItem 2 2] 2 1;
+     OUnit; OUnit; OHist [] 2 1] /\
+  nth 4 (snd (sp_run (spec_init 700 0) ops)) OUnit = OHist [] 2 1.
+Proof. vm_compute. repeat split; reflexivity. Qed.
 
 (* the two points excluded from the domain: the uint64 arithmetic of
    getLocked wraps.  since.Offset = 2^64-1 forward: offset+1 = 0 is "not in the
